@@ -4,12 +4,14 @@ import pool_shared as ps
 import handles as H
 import worker as W
 import C01 as c01
+import C04 as c04
 
 PROP = 'C07'
 REPLAYERS = {q: 'replayers/close_join.py' for q in (
     'pool.Pool.join', 'pool.Pool.close', 'pool.TaskHandler.tell_others', 'pool.Worker._ensure_messages_consumed',
     'pool.ResultHandler._make_methods.<locals>.on_ready')}
 REPLAYERS['pool.Pool.apply_async'] = 'replayers/apply_async_slot.py'
+REPLAYERS['pool.Pool._join_exited_workers'] = 'replayers/join_exited.py'
 
 ASSUMPTIONS = [
     'thread.join()/stop and Process.join() return when the thread/process has ended (assumed); the order in which join() '
@@ -178,19 +180,23 @@ def build(w):
     )
     w.externals['time.sleep'] = ps.ext_sleep
     w.externals['time.monotonic'] = ps.ext_monotonic
+    def redeclare(w):
+        # c01.build / c04.build declare the classes afresh: put this property's additions back
+        ps.declare_submission(w)
+        W.declare_worker(w)
+        g = w.classes['g']
+        g.fields.update({'seq': IntS, 'stopped_at': MapS(IntS, IntS), 'joined_at': MapS(IntS, IntS), 'sentinels': IntS,
+                         'result_sentinels': IntS, 'ioerror': BoolS})
+        w.classes['Counter'].methods['get_lock'] = lambda ex, a, k: SV(ValS, z3.Const('counter_lock', Val))
+        w.cls('Thread', module='pool', pyname='PoolThread', fields={'_state': IntS, '_was_started': BoolS})
+        w.classes['Supervisor'].base = 'Thread'
+        w.classes['Supervisor'].fields.pop('_state', None)
+        w.classes['Pool'].fields.update({'_worker_handler': ref('Supervisor'), '_task_handler': ref('Thread'),
+                                         '_result_handler': ref('Thread')})
+        w.classes['WorkerP'].methods['join'] = worker_join
+        w.classes['Sem'].methods['acquire'] = ps.ext_sem_acquire
     on_ready = [c for c in c01.build(w) if c.qualname.endswith('.on_ready')][0]
-    ps.declare_submission(w)
-    W.declare_worker(w)
-    g = w.classes['g']
-    g.fields.update({'seq': IntS, 'stopped_at': MapS(IntS, IntS), 'joined_at': MapS(IntS, IntS), 'sentinels': IntS,
-                     'result_sentinels': IntS, 'ioerror': BoolS})
-    w.classes['Counter'].methods['get_lock'] = lambda ex, a, k: SV(ValS, z3.Const('counter_lock', Val))
-    w.cls('Thread', module='pool', pyname='PoolThread', fields={'_state': IntS, '_was_started': BoolS})
-    w.classes['Supervisor'].base = 'Thread'
-    w.classes['Supervisor'].fields.pop('_state', None)
-    w.classes['Pool'].fields.update({'_worker_handler': ref('Supervisor'), '_task_handler': ref('Thread'),
-                                     '_result_handler': ref('Thread')})
-    w.classes['WorkerP'].methods['join'] = worker_join
+    redeclare(w)
     # the result of a job is credited to the counter of the worker that sent it
     on_ready.prop = PROP
     cr = ('implies(old(has(cache, job)) and self.on_ready_counters is not None and old(get(cache, job))._worker_pid is not None '
@@ -202,7 +208,17 @@ def build(w):
     on_ready.requires = dict(on_ready.requires, counters_wf='self.on_ready_counters is None or '
                              'all(implies(has(val(self.on_ready_counters), p), allocated(get(val(self.on_ready_counters), p)) and '
                              'len(val(self.on_ready_counters)) > 0) for p in ints())')
-    return [ps.apply_async_contract(PROP), close, join, tell, consumed, on_ready]
+    # the counters on_ready credits are the ones the pool registers new workers in: reaping must not replace the registries
+    reap = [c for c in c04.build(w, 'apply') if c.qualname.endswith('_join_exited_workers')][0]
+    redeclare(w)
+    reap.prop = PROP
+    reap.modifies = reap.modifies + ['g.seq', 'g.joined_at']        # this world records Process.join() calls
+    reap.loops[1]['modifies'] = reap.loops[1]['modifies'] + ['g.seq', 'g.joined_at']
+    reap.uses = dict(reap.uses, registries_stay_the_shared_objects=[])
+    reap.ensures = dict(reap.ensures, registries_stay_the_shared_objects=(
+        'self._on_ready_counters == old(self._on_ready_counters) and self._poolctrl == old(self._poolctrl) and '
+        'self._pool == old(self._pool) and self._cache == old(self._cache)'))
+    return [ps.apply_async_contract(PROP), close, join, tell, consumed, on_ready, reap]
 
 
 MANIFEST_ENTRY = {
@@ -213,7 +229,8 @@ MANIFEST_ENTRY = {
             'and refuses a running pool; the feeder, when it leaves, sends one sentinel to the result thread and one per worker '
             'unless the pipe fails; the result handler credits every result to the counter of the worker that accepted the job, '
             'and an exiting worker does not sleep once the counter has reached its number of completed jobs and waits at most 300 '
-            'retries otherwise.',
+            'retries otherwise; reaping exited workers (_join_exited_workers, C04 contract) never replaces the registries the '
+            'result handler and the supervisor share with the pool (the seeded change C07-a).',
     'note': 'Liveness (join() returns) and OS-level reaping are outside contracts: reduced to the order of stop/join calls and to '
             'the sentinel counts.  apply jobs only -- for map/imap handles the result counter is credited to the first owner of the '
             'handle (D7 in DESIGN.md, natively 31 s join), not yet under contract.',
